@@ -29,7 +29,10 @@ func runC24(tr *vh.Trace, rnd *rand.Rand, nscen, nact int) {
 		sc := genScenario(rnd, 5)
 		tr.Emit(dbEvent(sc))
 		d := buildDB(rnd, sc, nil, nil)
-		g := &Gen{rnd: rnd, sc: sc, nview: &nview, noViews: true}
+		g := &Gen{rnd: rnd, sc: sc, nview: &nview, noViews: true, keysOf: map[string][][]string{}}
+		for name, schm := range d.schemas {
+			g.keysOf[name] = schm.Keys
+		}
 		// one third of the scenarios run all their statements in ONE transaction, so each
 		// statement reads the uncommitted writes of the previous ones
 		var shared *db19.UpdateTran
@@ -120,11 +123,26 @@ func (a *action) setJSON() []any {
 	return r
 }
 
-// updateable query: the table with zero or more where
+// updateable query: the table with zero or more where, sometimes below a project that keeps a
+// key (projects that contain a key stay updateable: the other columns must be left alone)
 func (g *Gen) targetQuery(t *Table) *Q {
 	q := g.tableQ(t.Name)
 	for n := g.rnd.Intn(3); n > 0; n-- {
 		q = g.where(q)
+	}
+	if keys := g.keysOf[t.Name]; len(keys) > 0 && len(t.Cols) > 1 && g.rnd.Intn(5) == 0 {
+		cols := append([]string{}, keys[g.rnd.Intn(len(keys))]...)
+		for _, c := range shuffled(g.rnd, t.Cols) {
+			if !contains(cols, c) && g.rnd.Intn(2) == 0 {
+				cols = append(cols, c)
+			}
+		}
+		if len(cols) > 0 && len(cols) < len(t.Cols) {
+			q = g.project(q, shuffled(g.rnd, cols))
+			if g.rnd.Intn(3) == 0 {
+				q = g.where(q)
+			}
+		}
 	}
 	return q
 }
@@ -184,8 +202,8 @@ func (g *Gen) genAction() *action {
 		a := &action{kind: "update", table: t.Name, q: q}
 		n := 1 + g.rnd.Intn(2)
 		var parts []string
-		for _, c := range g.subset(t.Cols, n, n) {
-			e, _ := g.genVal(t.Cols, kinds, 1)
+		for _, c := range g.subset(q.cols, n, n) {
+			e, _ := g.genVal(q.cols, kinds, 1)
 			a.setc = append(a.setc, c)
 			a.sete = append(a.sete, e)
 			parts = append(parts, c+" = "+e.text())
